@@ -147,32 +147,71 @@ Theorem C16_prepend_glued_refuted :
 Proof. vm_compute. reflexivity. Qed.
 Print Assumptions C16_prepend_glued_refuted.
 
-(* application arguments: FALSE in general - an argument containing a quote character is merged
-   with what follows, a backslash makes start-up fail, an empty argument disappears *)
+(* application arguments: FALSE in general - an argument containing a quote character (double or single)
+   is merged with what follows, a backslash makes start-up fail, an empty argument disappears *)
 Theorem C16_app_args_refuted :
   (exists c, run [] M16 "./prog" [String c_dq "ab"; "x"] = Started c /\ c_argv c <> [String c_dq "ab"; "x"]) /\
+  (exists c, run [] M16 "./prog" ["a'b"; "x"] = Started c /\ c_argv c = ["ab --pika:positional=x"]) /\
   run [] M16 "./prog" ["a\b"; "x"] = Rejected RLateSplit /\
   (exists c, run [] M16 "./prog" [""; "x"] = Started c /\ c_argv c = ["x"]).
 Proof.
-  split; [|split].
+  split; [|split; [|split]].
   - eexists. split; [vm_compute; reflexivity|]. vm_compute. discriminate.
+  - eexists. split; vm_compute; reflexivity.
   - vm_compute. reflexivity.
   - eexists. split; vm_compute; reflexivity.
 Qed.
 Print Assumptions C16_app_args_refuted.
 
-(* app_args_unchanged, PARTIAL.  Full statement (not proved): for every argument list whose
-   non-pika arguments consist of plain characters (no blank, quote, backslash; non-empty; not
-   starting with '-' or '@'), run ... = Started c -> c_argv c = the non-pika arguments in order.
-   Proved: the re-splitting step copies a run of plain characters unchanged into the current
-   token (the core of that argument); the end-to-end claim is checked on instances below and on
-   every generated case by the correspondence run. *)
-Theorem C16_app_args_unchanged_partial :
+(* app_args_unchanged, END TO END.  The guard is the boolean predicate
+     arg_safe a = nonempty a && all_safe a,   all_safe a = every character c of a satisfies
+     safe_char c = negb (c is double quote || c is single quote || c is backslash || c is dollar)
+   i.e. according to the model of reconstruct_command_line / embed_in_quotes / the trimmed ini entry /
+   split_unix / init_helper EVERY character other than the two quote characters and the backslash survives,
+   blanks and tabs inside one argument included (embed_in_quotes wraps such an argument in double quotes and
+   split_unix copies blanks inside quotes); the three excluded characters and the empty argument are exactly
+   the classes of the finding C16:app_args:quote_backslash_or_empty (C16_app_args_refuted has a witness for
+   each).  The dollar sign is excluded in addition because the rebuilt line is read back through
+   get_config_entry, which expands ${NAME} and $[key] (observed on the real code: ./prog '${HOME}' arrives as
+   /root); the model does not apply that expansion to this entry, so for the dollar sign it is not trusted
+   (finding C16:app_args:dollar_expanded).
+   The guard is imposed on argv[0] and on EVERY argument (the prepended tokens of PIKA_COMMANDLINE_OPTIONS
+   included), because option values travel through the same re-quoting and an unbalanced quote in one of them
+   swallows the arguments that follow.
+   Statement: whenever start-up succeeds, the parser accepted the command line [pre ++ args] without
+   unregistered options and the application receives exactly its positional arguments, unchanged and in order.
+   The other recorded findings (duplicates, glued prepended token, prepended ini) end in a rejection or change
+   settings, not argv; they need no guard here. *)
+Theorem C16_app_args_unchanged :
+  forall env m arg0 args pre c,
+    tok_prepend (builtin env "pika.commandline.prepend_options") = Some pre ->
+    arg_safe arg0 = true -> forallb arg_safe (pre ++ args) = true ->
+    run env m arg0 args = Started c ->
+    exists p, parse_tokens (S (length (pre ++ args))) (pre ++ args) false p_empty = inl p /\
+              p_unreg p = [] /\ c_argv c = p_pos p.
+Proof. exact app_args_unchanged. Qed.
+Print Assumptions C16_app_args_unchanged.
+
+(* ... and for command lines written in the --name=value style (every token that starts with "--", up to a
+   "--" terminator, contains '='; flags and separated values are outside this corollary) the positional
+   arguments are given by a parser-independent function: everything after "--", and before it every token
+   that does not start with '-' (a lone "-" counts as an argument) *)
+Theorem C16_app_args_unchanged_eq_style :
+  forall env m arg0 args pre c,
+    tok_prepend (builtin env "pika.commandline.prepend_options") = Some pre ->
+    arg_safe arg0 = true -> forallb arg_safe (pre ++ args) = true -> eq_style (pre ++ args) = true ->
+    run env m arg0 args = Started c -> c_argv c = app_words (pre ++ args).
+Proof. exact app_args_unchanged_eq_style. Qed.
+Print Assumptions C16_app_args_unchanged_eq_style.
+
+(* the core of the argument (formerly C16_app_args_unchanged_partial): the re-splitting step copies a run of
+   plain characters unchanged into the current token *)
+Theorem C16_app_args_split_plain :
   forall s cur rest,
     plain s = true ->
     tokF (aeqb c_bs) is_ws sq (s ++ rest) false cur = tokF (aeqb c_bs) is_ws sq rest false (cur ++ s).
 Proof. exact tokF_plain. Qed.
-Print Assumptions C16_app_args_unchanged_partial.
+Print Assumptions C16_app_args_split_plain.
 
 (* ---------------------------------------------------------------- non-vacuity / instances *)
 Example ex_cmdline_wins :
@@ -198,3 +237,28 @@ Example ex_table_threads : In ("pika:threads", "pika.os_threads") opt_key /\
   assoc "pika.os_threads" builtin_ini = Some "${PIKA_THREADS:cores}" /\
   placeholder "${PIKA_THREADS:cores}" = Some ("PIKA_THREADS", "cores").
 Proof. split; [vm_compute; tauto|split; vm_compute; reflexivity]. Qed.
+
+(* the guard: ordinary arguments satisfy it (letters, digits, - = . / : , # % @ + and blanks or tabs inside one
+   argument, pika options themselves), the excluded classes do not *)
+Example ex_arg_safe :
+  forallb arg_safe ["x"; "input.dat"; "a=b"; "n:3"; "42"; "a b"; " lead and trail "; "out/"; "k,v"; "UPPER";
+                    String "w" (String c_tab "t"); "-z"; "-"; "--"; "--pika:threads=2"; "#c"; "user@host";
+                    "%~+*?()[]{}<>|&;!^"] = true /\
+  map arg_safe [""; String c_dq "ab"; "a'b"; "a\b"; "${HOME}"] = [false; false; false; false; false].
+Proof. split; vm_compute; reflexivity. Qed.
+
+(* non-vacuity of C16_app_args_unchanged / _eq_style: all hypotheses hold on a mixed command line *)
+Example ex_app_args_guarded :
+  let args := ["x"; "--pika:threads=2"; "a b"; "-"; "--"; "-z"; "--pika:scheduler=static"] in
+  tok_prepend (builtin [] "pika.commandline.prepend_options") = Some [] /\
+  arg_safe "./prog" = true /\ forallb arg_safe args = true /\ eq_style args = true /\
+  app_words args = ["x"; "a b"; "-"; "-z"; "--pika:scheduler=static"] /\
+  exists c, run [] M16 "./prog" args = Started c /\ c_argv c = app_words args.
+Proof. repeat split; try (vm_compute; reflexivity). eexists. split; vm_compute; reflexivity. Qed.
+
+(* with prepended tokens: the positional words of PIKA_COMMANDLINE_OPTIONS come first *)
+Example ex_app_args_prepended :
+  let env := [("PIKA_COMMANDLINE_OPTIONS", "pre --pika:threads=2")] in
+  tok_prepend (builtin env "pika.commandline.prepend_options") = Some ["pre"; "--pika:threads=2"] /\
+  exists c, run env M16 "./prog" ["x y"; "z"] = Started c /\ c_argv c = ["pre"; "x y"; "z"].
+Proof. split; [vm_compute; reflexivity|]. eexists. split; vm_compute; reflexivity. Qed.
